@@ -98,7 +98,7 @@ class Evidence(object):
             functions_analysed=sorted(self.functions),
             rule_instances=self.rule_instances,
             rule_instance_floors=self.floors,
-            trusted_base=self.trusted_base,
+            trusted_base=self.trusted_base or list(self.assumptions),
             checker_cmd="./check %s --tier %s" % (self.prop, self.tier),
             known_findings_reported=known,
             findings=[f.to_json() for f in findings][:50],
